@@ -107,7 +107,7 @@ func checkC07(c *Ctx) {
 				d[p.Name] = v
 			}
 		}
-		var compileErr string
+		var compileErr, recompileErr string
 		var unbound []string
 		v := vrt.Run(vrt.Options{Fuel: 2000000}, func() {
 			b := soy.NewBundle()
@@ -121,6 +121,12 @@ func checkC07(c *Ctx) {
 			}
 			var buf bytes.Buffer
 			tofu.NewRenderer("app.main.entry").Inject(exprIJ).Execute(&buf, d)
+			if mut == "none" {
+				// the same Bundle value compiled once more (for Tofu, then for the JavaScript generator): same decision
+				if _, err2 := b.Compile(); err2 != nil {
+					recompileErr = err2.Error()
+				}
+			}
 		})
 		for _, e := range v.Events {
 			if strings.HasPrefix(e, "unbound:") && !strings.Contains(e, "__") {
@@ -162,6 +168,8 @@ func checkC07(c *Ctx) {
 			c.Violate("no panic", "panic", "panic:"+sig, cs, "accept or reject", fmt.Sprint(v.Panic))
 		case wantAccept && !accepted:
 			c.Violate("compilation succeeds for every rule-abiding bundle", "mismatch", "false-reject:"+mut+":"+sig, cs, "accepted", compileErr)
+		case wantAccept && accepted && recompileErr != "":
+			c.Violate("compilation succeeds for every rule-abiding bundle", "mismatch", "false-reject-on-recompilation:"+sig, cs, "accepted again", recompileErr)
 		case !wantAccept && accepted:
 			c.Violate("compilation fails for every bundle violating a rule", "mismatch", "false-accept:"+strings.Join(rules.list(), ",")+":"+mut+":"+sig, cs, "rejected ("+strings.Join(rules.list(), ",")+")", "accepted")
 		case wantAccept && c.Instr():
@@ -247,7 +255,7 @@ func checkC07(c *Ctx) {
 		tmp := cloneCmds(body)
 		walkCmds(&tmp, func(list *[]*Cmd, i int) { nsites++ })
 		for site := 0; site < nsites; site++ {
-			for _, kind := range []string{"rename-ref", "unused-let", "let-ij", "undeclared-call-param", "unknown-callee", "missing-required", "missing-required-after-optional", "drop-one-call-param", "delete"} {
+			for _, kind := range []string{"rename-ref", "unused-let", "let-ij", "undeclared-call-param", "unknown-callee", "missing-required", "missing-required-after-optional", "missing-required-with-default", "complete-call-with-default", "drop-one-call-param", "delete"} {
 				b2 := cloneCmds(body)
 				idx := 0
 				applied := false
@@ -293,6 +301,21 @@ func checkC07(c *Ctx) {
 							cm.Call.Name, cm.Call.Target = "deep.mixed", "lib.deep.mixed"
 							cm.Call.AllData, cm.Call.Data = false, nil
 							cm.Call.Params = []CallParam{{Key: "o", Value: I(1)}, {Key: "r", Value: I(2)}}
+							applied = true
+						}
+					case "missing-required-with-default":
+						// the callee declares {@param r: ? = 3}: a default in the declaration does not make it optional
+						if cm.K == "call" && len(cm.Call.Params) <= 1 {
+							cm.Call.Name, cm.Call.Target = "deep.hdrdef", "lib.deep.hdrdef"
+							cm.Call.AllData, cm.Call.Data = false, nil
+							cm.Call.Params = []CallParam{{Key: "o", Value: I(1)}}
+							applied = true
+						}
+					case "complete-call-with-default":
+						if cm.K == "call" && len(cm.Call.Params) <= 1 {
+							cm.Call.Name, cm.Call.Target = "deep.hdrdef", "lib.deep.hdrdef"
+							cm.Call.AllData, cm.Call.Data = false, nil
+							cm.Call.Params = []CallParam{{Key: "r", Value: I(2)}}
 							applied = true
 						}
 					case "drop-one-call-param":
